@@ -38,10 +38,10 @@ Branched(n) ==
             c2 \in ChainsUpTo(1), l2 \in LeafKinds} : t.brs[1].at <= Len(t.chain)}
 Branched2(n) ==
   {t \in {Topo(s, TRUE, ch, "pull", TRUE, IF swap THEN <<Br(b2, c3, "pull"), Br(b1, c2, l2)>> ELSE <<Br(b1, c2, l2), Br(b2, c3, "pull")>>, FALSE) :
-            s \in {"push", "pull"}, ch \in ChainsUpTo(n) \ {<<>>}, b1 \in 0..n, c2 \in ChainsUpTo(1), l2 \in {"pull", "push"},
-            b2 \in 0..n, c3 \in {<<>>, <<"pass">>, <<"timead">>, <<"nobr">>}, swap \in BOOLEAN} :
+            s \in {"push", "pull"}, ch \in ChainsUpTo(n) \ {<<>>}, b1 \in 0..n, c2 \in {<<>>, <<"pass">>, <<"timead">>}, l2 \in {"pull", "push"},
+            b2 \in 0..n, c3 \in {<<>>, <<"timead">>, <<"nobr">>}, swap \in BOOLEAN} :
      \A k \in 1..2 : t.brs[k].at <= Len(t.chain)}
-Cases(n) == Single(n) \cup Branched(n) \cup Branched2(n)
+Cases(n) == Single(n) \cup Branched(n) \cup Branched2(n - 1)
 
 Leaves == {"pull", "push", "static", "pushstatic"}
 IsStaticLeaf(l) == l \in {"static", "pushstatic"}
